@@ -92,7 +92,7 @@ def respawn (s : St M σ) : St M σ :=
 /-- the part of `Reset` that re-makes `poolc` when the buffer size changes: as many of the old slices as fit, then nil slices -/
 def resize (s : St M σ) (n : Nat) : St M σ :=
   if n = s.N then s else
-    { s with pool := s.pool.take n ++ (List.range (n - s.pool.length)).map (· + s.nextId),
+    { s with pool := s.pool.take n ++ List.range' s.nextId (n - s.pool.length),
              nextId := s.nextId + (n - s.pool.length), N := n }
 
 /-- end of `Close()` (`l.active = false`) and the rest of the call that began with it -/
